@@ -13,7 +13,7 @@
    Domain: wf_row (the marker buffer holds only inserts and deletes) - true of every transaction
    the API can build; the length-changing string merge of finding K2 is outside the model. *)
 From stdpp Require Import gmap.
-From ColumnV Require Import Bytes Store StoreProofs.
+From ColumnV Require Import Bytes Store StoreProofs StoreProofs6.
 
 Theorem c03_commit_keeps_indexes_exact : ∀ s t, wf_row t → IdxOK s → IdxOK (commit s t).
 Proof. exact commit_idx_ok. Qed.
@@ -35,3 +35,9 @@ Example c03_example :
   let t := push (push (push txn0 1 (mkop KPut 5 (V8 3))) 1 (mkop KMerge 5 (V8 4))) 1 (mkop KPut 9 (V8 1)) in
   idx_of (commit s1 t) 5 = [7%N] ∧ idx_of (commit s1 t) 9 = [].
 Proof. vm_compute. done. Qed.
+
+(* over whole histories: in every state reachable from the empty collection by admissible
+   histories (StoreProofs6.history_ok) the invariant holds *)
+Theorem c03_reachable : ∀ h, history_ok coll0 h → IdxOK (foldl hrun coll0 h).
+Proof. intros h H. by destruct (reachable_inv h H). Qed.
+Print Assumptions c03_reachable.
